@@ -45,12 +45,12 @@ class World_:
     pass
 
 
-def make_world(eng, lang, nvars=2, with_nested=True):
+def make_world(eng, lang, nvars=2, with_nested=True, projected=False, bounded=False):
     w = World_()
     g = Generator(language=lang)
     g.context = Context()
     f = g.bt_factory
-    w.g, w.f, w.lang = g, f, lang
+    w.g, w.f, w.lang, w.eng = g, f, lang, eng
     INT, STR = f.get_integer_type(), f.get_string_type()
     w.INT, w.STR = INT, STR
     fa_final = bool(eng.fresh_bool('field_fa_final'))
@@ -66,13 +66,29 @@ def make_world(eng, lang, nvars=2, with_nested=True):
     T = tp.TypeParameter('T')
     Gg = ast.ClassDeclaration('Gg', [], ast.ClassDeclaration.REGULAR, fields=[ast.FieldDeclaration('gf', T, is_final=True)],
                               functions=[], is_final=True, type_parameters=[T])
+    T2 = tp.TypeParameter('T2')
+    Hh = ast.ClassDeclaration('Hh', [], ast.ClassDeclaration.REGULAR,
+                              fields=[ast.FieldDeclaration('hf', Gg.get_type().new([T2]), is_final=False)],
+                              functions=[], is_final=True, type_parameters=[T2])
     w.classes = dict(Aa=A, Bb=B, Cc=C, Ab=Ab, Ii=Ii, Gg=Gg)
+    if projected:
+        w.classes['Hh'] = Hh
     for c in w.classes.values():
         g.context.add_class(G, c.name, c)
         for fld in c.fields:
             g.context.add_var(G + (c.name,), fld.name, fld)
     w.pool = [A.get_type(), B.get_type(), C.get_type(), INT, Gg.get_type().new([A.get_type()]), STR]
     w.pool_names = ['Aa', 'Bb', 'Cc', 'Int', 'Gg<Aa>', 'String']
+    if bounded:
+        # a class with a bounded type parameter; the expected types are its use-site projections
+        T3 = tp.TypeParameter('T3', bound=B.get_type())
+        Kk = ast.ClassDeclaration('Kk', [], ast.ClassDeclaration.REGULAR, fields=[], functions=[], is_final=True,
+                                  type_parameters=[T3])
+        w.classes['Kk'] = Kk
+        g.context.add_class(G, 'Kk', Kk)
+        w.pool = [Kk.get_type().new([tp.WildCardType(B.get_type(), tp.Contravariant)]),
+                  Kk.get_type().new([tp.WildCardType(B.get_type(), tp.Covariant)]), Kk.get_type().new([B.get_type()])]
+        w.pool_names = ['Kk<in Bb>', 'Kk<out Bb>', 'Kk<Bb>']
     # callable declarations: top-level functions, a method of Aa, a generic function
     ma = ast.FunctionDeclaration('ma', [ast.ParameterDeclaration('k', INT)], INT, ast.BottomConstant(INT),
                                  ast.FunctionDeclaration.CLASS_METHOD)
@@ -109,6 +125,12 @@ def make_world(eng, lang, nvars=2, with_nested=True):
         w.decls[name] = (ns, v)
         return v
     var('gv', G)
+    if projected:
+        # a local of a use-site projected type whose class has a non-final field mentioning the type parameter
+        pt = Hh.get_type().new([tp.WildCardType(A.get_type(), tp.Covariant)])
+        vp = ast.VariableDeclaration('vp', ast.BottomConstant(pt), is_final=bool(eng.fresh_bool('final_vp')), var_type=pt)
+        g.context.add_var(G + ('ff',), 'vp', vp)
+        w.decls['vp'] = (G + ('ff',), vp)
     for i in range(nvars):
         var('v%d' % i, G + ('ff',))
     g.namespace = G + ('ff',)
@@ -184,7 +206,8 @@ def run_unit(eng, lang, unit, **kw):
     sym_depth = kw.pop('sym_depth', False)
     sym_draws = kw.pop('sym_draws', None)
     cfgkw = dict(limits__max_depth=max_depth, limits__max_var_decls=3)
-    w = make_world(eng, lang, nvars=kw.pop('nvars', 2), with_nested=kw.pop('with_nested', True))
+    w = make_world(eng, lang, nvars=kw.pop('nvars', 2), with_nested=kw.pop('with_nested', True),
+                   projected=kw.pop('projected', False), bounded=kw.pop('bounded', False))
     depth0 = int(eng.fresh_int(1, 2 * max_depth + 2, 'depth')) if sym_depth else 1
     w.g.depth = depth0
     etype_i = int(eng.fresh_int(0, len(w.pool) - 1, 'etype'))
@@ -312,7 +335,12 @@ def c_gen_assignment(w, etype, subtype, res, case):
         ttype = fld.get_type()
         if isinstance(rt, tp.ParameterizedType) and cls.type_parameters:
             ttype = tp.substitute_type(ttype, {p: a for p, a in zip(cls.type_parameters, rt.type_args)})
-    if isinstance(rhs, Hole) and rhs.t is not None:
+    projected = ttype.is_wildcard() or (ttype.is_parameterized() and ttype.has_wildcards())
+    if projected:
+        # nothing but a bottom value can be written into a slot whose type mentions a projection
+        out.append(('C01', Ob('gen_assignment|only-bottom-into-projected-slot', isinstance(rhs, Hole) and rhs.req['gen_bottom'],
+                              dict(case, target=res.name, target_type=str(ttype)))))
+    if isinstance(rhs, Hole) and rhs.t is not None and not projected:
         out.append(('C01', Ob('gen_assignment|value-fits-target', assignable(w, rhs.t, ttype),
                               dict(case, target=res.name, target_type=str(ttype), value_type=str(rhs.t)))))
     return out
@@ -430,6 +458,8 @@ def c_generate_expr(w, etype, subtype, res, case):
         ok = assignable(w, t, etype) if subtype else w.ref.snap(t) == w.ref.snap(etype)
         out.append(('C01', Ob('generate_expr|dispatched-type-fits|subtype=%d' % subtype, ok, dict(case, dispatched_type=str(t)))))
         out.append(('C05', Ob('generate_expr|dispatched-type-usable', not t.is_type_constructor(), case)))
+        out.append(('C01', Ob('generate_expr|dispatched-type-arguments-within-bounds', w.ref.within_bounds(w.ref.snap(t)),
+                              dict(case, dispatched_type=str(t)))))
     if isinstance(res, ast.Variable):
         r = resolve(w, res.name, w.g.namespace)
         out.append(('C05', Ob('generate_expr|introduced-variable-resolves', r is not None, dict(case, name=res.name))))
@@ -748,7 +778,8 @@ def c_gen_class_decl(w, etype, subtype, res, case):
 def u_select_superclass(w, etype, subtype):
     g = w.g
     g.namespace = G + ('Newcls',)
-    g._blacklisted_classes = {'Cc'} if subtype else set()
+    # any subset of the inheritable classes may be under construction
+    g._blacklisted_classes = {n for n in ('Aa', 'Ab', 'Ii') if bool(w.eng.fresh_bool('under_construction_' + n))}
     w.only_interfaces = w.ref.snap(etype) == w.ref.snap(w.INT)      # reuse the symbolic expected type as a flag
     return g._select_superclass(w.only_interfaces)
 
